@@ -338,5 +338,8 @@ func runC17(r *run) {
 			}
 		}
 	}
+	// routing of severities registered for the error device: several of them, and loggers that exist already
+	customErrorDevices(r.violate)
+	lateErrorDeviceLevels(r.violate)
 	slog.VerifResetGlobals()
 }
